@@ -320,6 +320,23 @@ def run_cell(rec, cell):
         hd = dict(xh)
         if origin is not None:
             hd['Origin'] = origin
+        # headers of other proxy conventions that name the disallowed
+        # origin's host / scheme: the statement names X-Forwarded-Proto and
+        # X-Forwarded-Host only, nothing else widens the default policy
+        other = None
+        if origin and origin.isascii() and origin == origin.strip() and \
+                '://' in origin and sum(map(ord, origin)) % 2 == 0 and \
+                not is_allowed(cfgname, origin, scheme, host, xh):
+            osch, _, ohost = origin.partition('://')
+            if ohost and all(c not in ohost for c in ' ,;"\\\r\n'):
+                other = [('Forwarded', 'for=10.0.0.1;host=%s;proto=%s' % (
+                              ohost, osch)),
+                         ('Forwarded', 'host="%s"' % ohost),
+                         ('X-Original-Host', ohost),
+                         ('X-Forwarded-Server', ohost),
+                         ('X-Host', ohost)][(len(origin) + ikind) % 5]
+                hd[other[0]] = other[1]
+                rec.count('other_proxy_headers')
         ws = None
         if kind == 'open':
             t = sim.request('GET', {'transport': 'polling', 'EIO': '4'}, hd)
@@ -336,9 +353,9 @@ def run_cell(rec, cell):
                             hd)
         sim.quiesce()
         desc = ('cors_allowed_origins=%s credentials=%r Origin=%r env=%s '
-                '(scheme %s host %r fwd %r) request=%s server=%s' % (
-                    cfgname, cred, origin, envname, scheme, host, xh, kind,
-                    srv))
+                '(scheme %s host %r fwd %r%s) request=%s server=%s' % (
+                    cfgname, cred, origin, envname, scheme, host, xh,
+                    ' + %s: %s' % other if other else '', kind, srv))
         checked = cfgname != 'empty' and bool(origin)
         # mechanism of known finding K6: the asyncio drivers report
         # X-Forwarded-Proto as wsgi.url_scheme, so with both forwarded headers
